@@ -18,13 +18,13 @@ CLAIMED = {
                 text='Theorems (unbounded over line lists, states, flags): every conditional branch left by check_branches is within -128..127 when its label is unique; the repair skeleton exits exactly where the original branch (pair) did for every flag state; no panic when targets are defined; labels stay unique and defined; the iteration terminates. Tied to src/assemble.rs by running the Rust and the extracted model on the same thousands of boundary-sweeping inputs each run, and by recomputing displacements / co-executing original vs repaired on the implementation\'s own output.',
                 ref='DESIGN.md section 6 C03'),
     'C02': dict(cat='proof', technique='Coq proofs on a Gallina model of the peephole optimiser (structure for all line lists; per-instruction knowledge soundness and per-rule soundness on the 6502 semantics) + exact per-run correspondence with the Rust + -O0 vs -O1..3 co-execution',
-                text='Proved for all line lists: the optimiser terminates, only turns unprotected instructions (or immediate compares) into Dummy or swaps LDA with SEC/CLC, never touches labels/inline/comments, invents nothing. Proved on the 6502 semantics (when Props/C02sem.v is present): the register-knowledge transfer function is sound for every instruction and each rewrite rule preserves the state up to dead N/Z flags. The global simulation is NOT proved (flag liveness); it is explored by co-executing -O0 against every other level on seeded programs with optimiser baits. Partial.',
+                text='Proved for all line lists: the optimiser terminates, only turns unprotected instructions (or immediate compares) into Dummy or swaps LDA with SEC/CLC, never touches labels/inline/comments, invents nothing. Proved on the 6502 semantics (when Props/C02sem.v is present): the register-knowledge transfer function (register contents and which register N/Z describe) is sound for every instruction, each rewrite rule preserves the state up to N/Z, and a removed load either changes nothing or only N/Z while the next instruction(s) the look-ahead inspected redefine them whatever they were (removal_dead). The global simulation over whole functions is NOT proved; it is explored by co-executing -O0 against every other level on seeded programs with optimiser baits. Partial.',
                 ref='DESIGN.md section 6 C02'),
     'C18': dict(cat='proof', technique='Coq proofs (csleep cycle/frame theorem on the 6502 cycle model; optimiser keeps protected instructions and inline assembly) + exhaustive csleep-table correspondence + trace co-execution against the extracted C semantics',
                 text='csleep(n) is proved to take exactly n cycles and to change nothing but DUMMY and the free stack byte for every state, on a table compared exhaustively with the generator each run; the optimiser is proved never to remove, duplicate or reorder protected instructions and inline lines; executed event traces at every level are compared with the trace the C semantics prescribes, and deleting csleep statements must not change final states.',
                 ref='DESIGN.md section 6 C18'),
     'C04': dict(cat='proof', technique='Coq proof over the whole finite domain of a Gallina model of asm() (size = encoding the assembler selects) + exhaustive per-run correspondence of that model with the real asm() through the verification hook + re-assembly of compiled functions by the extracted encoder',
-                text='For every (mnemonic, operand kind, variable type/memory class/constness, byte selection, scheme) the model of asm() is proved to report the size of the encoding a 6502 assembler selects; the model is compared with the real asm() on all ~80 000 cells every run (exhaustive); optimiser and branch repair are proved to only delete such instructions or add instructions of known real size; and every function of seeded programs is re-assembled by the extracted encoder and compared with size_bytes().',
+                text='For every (mnemonic, operand kind, variable type/memory class/constness/constant address, byte selection, scheme) the model of asm() is proved to report the size of the encoding a 6502 assembler selects, the page of a constant-address object being decided by its address plus the printed offset (hypothesis var_wf: class Zeropage iff address < $100, checked each run on what the real front end produces); the model is compared with the real asm() on all ~95 000 cells every run (exhaustive); optimiser and branch repair are proved to only delete such instructions or add instructions of known real size; and every function of seeded programs is re-assembled by the extracted encoder and compared with size_bytes().',
                 ref='DESIGN.md section 6 C04'),
     'C05': dict(cat='proof', technique='Coq proof on a model of the insertion-counter ordering (hash-map iteration = arbitrary permutation) + repeated compilation in one process and in fresh processes',
                 text='Proved: sorting by the insertion counter yields one sequence for every permutation of the table, because every declaration history gives distinct counters (re-declarations keep their rank; the old defect is refuted by a two-permutation witness). The hash seed itself is outside the model: each program is compiled 12 times in-process and in several fresh processes, interleaved in shuffled order, and all dumps must be identical. Partial.',
